@@ -305,7 +305,9 @@ the limits ZSTD_buildSeqTable is called with: MaxLL / LLFSELog, MaxOff / OffFSEL
 distribution (`FSE.NormOK`: counts ≥ -1 adding up to `2^L`) with `FSE_MIN_TABLELOG = 5 ≤ L ≤ maxLog`, an alphabet within the limit
 whose last symbol is present (FSE_writeNCount is handed `maxSymbolValue` = the last symbol with a non-zero count), and the two facts on
 the spreading of symbols that `tools/ent_fse.py` / `zvdriver seqenc` check on every table (`SeqRT.inverts_build`).  `set_rle`,
-`set_basic`: nothing here (the bound on the RLE symbol follows from `CodesOK`).  `set_repeat` is not a resolved choice. -/
+`set_basic`: nothing here (the bound on the RLE symbol follows from `CodesOK`).  `set_repeat` is not a resolved choice.
+The two spreading facts FOLLOW from the other conjuncts (Lemmas/SpreadRT.lean: `FSE.spread_ok`, `FSE.spreadEnc_eq_spread`); see
+Lemmas/DescribedTables.lean: `TableDescOK` (this predicate without them), `tableOK_of_distribution`, `block_roundtrip_described_tables`. -/
 def TableOK (maxSym maxLog : Nat) : SeqTableChoice → Prop
   | .predefined => True
   | .rle _ => True
